@@ -10,7 +10,7 @@ import os
 EXTRA = {
     "C15": ["delay"],
     "C16": [],
-    "C17": ["take_last_with_time", "skip_last_with_time"],
+    "C17": [],
 }
 
 
